@@ -22,6 +22,10 @@ type hybridModel struct {
 	meta                    *metaModel
 	seenFields              map[string]bool
 	docs                    map[uint32]bool // live documents (any modality)
+	// set by expect(): the per-modality score maps of the last query, and whether rank ties inside them were the ONLY
+	// source of ambiguity (then every RRF score still has to lie between its best and its worst legal rank assignment)
+	lastV, lastT     map[uint32]float64
+	lastOnlyRankTies bool
 }
 
 func newHybridModel(hasVec, hasTxt, hasMeta bool, metric comet.DistanceKind, dim int, schema *metaSchema) *hybridModel {
@@ -173,6 +177,7 @@ func fuseRef(kind comet.FusionKind, v, t map[uint32]float64, wv, wt, K float64) 
 // alts: legal (id->score) maps before the final top-k (more than one only in the open corner); ambiguous: a tie
 // makes candidate selection or ranks implementation-defined (soundness only).
 func (h *hybridModel) expect(q hybridQuery) (errWanted bool, alts []map[uint32]float64, ambiguous bool, unsharpFilter bool, cand map[uint32]bool, filtered bool) {
+	h.lastV, h.lastT, h.lastOnlyRankTies = nil, nil, false
 	filtered = len(q.Filters) > 0 || len(q.Groups) > 0
 	if filtered && !h.hasMeta {
 		return true, nil, false, false, nil, filtered
@@ -287,6 +292,7 @@ func (h *hybridModel) expect(q hybridQuery) (errWanted bool, alts []map[uint32]f
 	case len(q.Vector) > 0 && len(q.Texts) > 0:
 		if len(V) > 0 && len(T) > 0 {
 			f, tieAmb := fuseRef(q.Fusion, V, T, q.WV, q.WT, q.RRFK)
+			h.lastV, h.lastT, h.lastOnlyRankTies = V, T, tieAmb && !ambiguous
 			if tieAmb {
 				ambiguous = true
 			}
@@ -435,4 +441,31 @@ func applyHybridQuery(s comet.HybridSearch, q hybridQuery) comet.HybridSearch {
 	}
 	f, _ := comet.NewFusion(q.Fusion, &comet.FusionConfig{VectorWeight: q.WV, TextWeight: q.WT, K: q.RRFK})
 	return s.WithK(q.K).WithFusion(f).WithScoreAggregation(q.Agg)
+}
+
+// rrfRange: the smallest and the largest reciprocal-rank contribution id can legally get inside m (asc: smaller is
+// better), ranks being 0-based positions of a best-first ordering in which scores within tol of each other may come in
+// either order. Absent id: no contribution.
+func rrfRange(m map[uint32]float64, id uint32, asc bool, K float64, tol func(float64) float64) (lo, hi float64) {
+	s, ok := m[id]
+	if !ok {
+		return 0, 0
+	}
+	better, tied := 0, 0
+	for o, so := range m {
+		if o == id {
+			continue
+		}
+		d := so - s
+		if !asc {
+			d = -d
+		}
+		switch {
+		case d < -tol(s):
+			better++
+		case d <= tol(s):
+			tied++
+		}
+	}
+	return 1 / (K + float64(better+tied)), 1 / (K + float64(better))
 }
